@@ -676,7 +676,7 @@ Proof.
   - apply Hc; auto.
   - intros x. apply IH.
     + intros ow Hw. decode; auto. left; exact I.
-    + intros W' HW'. destruct x; cbn; apply Hc; auto.
+    + intros W' HW'. destruct x; [destruct (m_fixed m)|]; cbn; apply Hc; auto.
 Qed.
 
 Lemma post_spawn_open rc : forall sd i done (W : owner -> Prop),
@@ -1010,7 +1010,7 @@ Proof. induction fuel; walkcx; auto. Qed.
 Lemma cx_recvfds m h : forall n, all_cx (op_recvfds m h n).
 Proof. induction n; walkcx; auto. Qed.
 Lemma cx_spawn_unwind m : forall done c, all_cx c -> all_cx (spawn_unwind m done c).
-Proof. induction done as [|sh r IH]; intros c Hc; walkcx; auto. apply IH. destruct x; cbn; auto. Qed.
+Proof. induction done as [|sh r IH]; intros c Hc; walkcx; auto. apply IH. destruct x; [destruct (m_fixed m)|]; cbn; auto. Qed.
 Lemma cx_spawn_open m rc : forall sd i done, all_cx (spawn_open m i sd done rc).
 Proof.
   induction sd as [|x r IH]; intros i done; [exact I|].
@@ -1155,7 +1155,7 @@ Proof. induction fuel; walkcl; auto. Qed.
 Lemma cl_recvfds m h : forall n, closes_lib (op_recvfds m h n).
 Proof. induction n; walkcl; auto. Qed.
 Lemma cl_spawn_unwind m : forall done c, closes_lib c -> closes_lib (spawn_unwind m done c).
-Proof. induction done as [|sh r IH]; intros c Hc; walkcl; auto. apply IH. destruct x; cbn; auto. Qed.
+Proof. induction done as [|sh r IH]; intros c Hc; walkcl; auto. apply IH. destruct x; [destruct (m_fixed m)|]; cbn; auto. Qed.
 Lemma cl_spawn_open m rc : forall sd i done, closes_lib (spawn_open m i sd done rc).
 Proof.
   induction sd as [|x r IH]; intros i done; [exact I|].
